@@ -43,6 +43,21 @@ else:
     slow_step(6)
 db.Open = 7
 """))
+            # the taken branch makes no call: a function reachable only from the dead branch must not be emitted
+            out.append((f"const_test:{i}:nocall", HDR + f"""
+FLAGS = 6
+LEVEL = 2
+
+def slow_step(v):
+    db.Setting = v
+
+if {neg}{t}:
+    db.On = 1
+else:
+    slow_step(5)
+    slow_step(6)
+db.Open = 7
+"""))
     return out
 
 
@@ -103,7 +118,7 @@ def run(tier: str) -> int:
             # from the last main line into the FIRST function region
             st_ = r.get("stats") or {}
             target = int(e["detail"][0]) if e["detail"] else -1
-            never_called = (e["kind"] == "fallthrough" and not st_.get("truncated") and st_.get("bound_paths", 0) == 0
+            never_called = (e["kind"] == "fallthrough" and not st_.get("truncated")
                             and target not in (st_.get("called_entries") or []))
             if never_called:
                 path = e1.save_replay(PROP, dict(property=PROP, kind="monitor", name=spec["name"], sources=spec["sources"], opts=spec.get("opts", {}), event=e, code=r.get("code")))
